@@ -529,6 +529,10 @@ func c03Slots(r *Run, site *cutSite) (*loopB, *ccell, []*Path, *cellResolver) {
 		k = newKeyer(mainFn)
 	}
 	paths, ok := main.iterPaths(k, 5000)
+	if ok {
+		// helpers that update the counters through the address of a counter struct are inlined
+		paths, ok = cr.expand(paths, 5000)
+	}
 	r.paths += len(paths)
 	if !ok {
 		r.Undecided("C03.R3", "node loop", pos, shortFunc(fn), "path cap exceeded")
@@ -598,8 +602,8 @@ func c03Slots(r *Run, site *cutSite) (*loopB, *ccell, []*Path, *cellResolver) {
 		if bad {
 			continue
 		}
-		availPol, availFound, availCall := pathCallFact(p, fnIsPodAvailable, 0, isPod)
-		stuckPol, stuckFound, _ := pathCallFact(p, fnHasPodSchedulerIssue, 0, isPod)
+		availPol, availFound, availCall := cr.pathCallFact(p, fnIsPodAvailable, 0, isPod)
+		stuckPol, stuckFound, _ := cr.pathCallFact(p, fnHasPodSchedulerIssue, 0, isPod)
 		if availCall != nil {
 			// with minReadySeconds == 0 the time argument is irrelevant (availability == readiness)
 			if c, isC := constInt(availCall.Call.Args[1]); isC && c == 0 && len(availCall.Call.Args) == 3 {
@@ -768,7 +772,7 @@ func c03Shape(r *Run, site *cutSite, main *loopB, ou *ccell, paths []*Path, cred
 			if len(elems) == 0 {
 				continue
 			}
-			pol, found, _ := pathCallFact(p, fnIsPodAvailable, 0, isPod)
+			pol, found, _ := cr.pathCallFact(p, fnIsPodAvailable, 0, isPod)
 			for _, e := range elems {
 				if unwrap(e) != main.key {
 					allN = false
